@@ -1,6 +1,11 @@
 use core::mem::ManuallyDrop;
 use std::prelude::v1::*;
 
+// Verification hook: the Kani compiler overrides `assert!` through `#[macro_use]`, which is
+// ambiguous with the glob import above. Only `cfg(kani)` builds see this line.
+#[cfg(kani)]
+use core::assert;
+
 #[repr(C)]
 #[cfg_attr(feature = "abi_stable", derive(::abi_stable::StableAbi))]
 pub struct CVec<T> {
